@@ -98,6 +98,7 @@ def exprs(budget, names, allow_partial=True):
   yield ("arg_factory.partial(N.node, x=functools.partial(N.node_pos, a, 'p2'"
          ", 'v1'))"), 1
   yield 'arg_factory.partial(N.node_pos, N.node_b, k=N.node)', 1
+  yield 'arg_factory.partial(N.node_pos, N.node_b, N.Mid, k=N.node, j=N.Leaf)', 1
   # two sub-expressions
   if budget >= 2:
     small = [s for s in exprs(budget - 2, names) if s[1] <= budget - 2]
@@ -165,6 +166,17 @@ def programs(b):
     yield 'classmethod', (
         "class K:\n  tag = 'clsattr'\n  @DECORATOR\n  @classmethod\n"
         f"  def prog(cls, a, b='bd'):\n    return [{e}, cls.tag]\n")
+  # several lambdas on one source line with identical parameter names: the
+  # rewritten source must be the selected lambda's (or the program rejected)
+  for e1, e2 in (('N.node(x=a)', 'N.node_b(x=a)'),
+                 ('N.node(x=1)', 'N.node(x=1000)'),
+                 ('N.Mid(a)', '[N.Mid(b), a]')):
+    for pick in ('s', 'l'):
+      yield 'lambda-pair', (
+          f"d = {{'s': lambda a, b='bd': {e1}, 'l': lambda a, b='bd': {e2}}}\n"
+          f"prog = d['{pick}']\n")
+    yield 'lambda-pair', (
+        f"d = (lambda a, b='bd': {e1}, lambda a, c='bd': {e2})\nprog = d[1]\n")
   # control flow (experimental_allow_control_flow=True)
   for e in bodies[:12]:
     yield 'cf-ifexp', f"{hdr}  return ({e}) if a else N.node_b(x=b)\n"
@@ -191,11 +203,15 @@ class PartialCalling(canon.Canon):
       if r is not None:
         return r
       n = self.memo[id(x)]
+      before = len(vfx.LOG)
       try:
         out = x()
       except Exception as e:  # pylint: disable=broad-except
         return ('partial-raises', n, type(e).__name__)
-      return ('partial-returns', n, self.c(out))
+      # the order in which the call invoked the recording callables (argument
+      # factories first, positional before keyword ones) is part of the result
+      order = tuple(k for _, k, _ in vfx.LOG[before:])
+      return ('partial-returns', n, order, self.c(out))
     return super().c(x)
 
 
